@@ -171,15 +171,29 @@ impl<'a, R, C> Cache<super::Patches<'a, R>, C> {
     where
         G: crypto::signature::Signer<crypto::Signature>,
         R: ReadRepository + SignRepository + cob::Store<Namespace = NodeId>,
-        C: Remove<Patch>,
+        C: Remove<Patch> + Update<Patch>,
     {
         self.store.remove(id, signer)?;
-        self.cache
-            .remove(id)
-            .map_err(|e| super::Error::CacheRemove {
-                id: *id,
-                err: e.into(),
-            })?;
+        // Only our own reference was removed. If other peers hold references to the
+        // object, it still exists: cache what is left of it instead of dropping it.
+        match self.store.get(id) {
+            Ok(Some(object)) => {
+                self.cache
+                    .update(&self.rid(), id, &object)
+                    .map_err(|e| super::Error::CacheUpdate {
+                        id: *id,
+                        err: e.into(),
+                    })?;
+            }
+            Ok(None) | Err(_) => {
+                self.cache
+                    .remove(id)
+                    .map_err(|e| super::Error::CacheRemove {
+                        id: *id,
+                        err: e.into(),
+                    })?;
+            }
+        }
         Ok(())
     }
 
